@@ -12,6 +12,9 @@
 #include <boost/gil/extension/dynamic_image/dynamic_image_all.hpp>
 #include <boost/gil/pixel_numeric_operations.hpp>
 
+#include <limits>
+#include <type_traits>
+
 namespace boost { namespace gil {
 
 // Nearest-neighbor and bilinear image samplers.
@@ -52,7 +55,20 @@ struct cast_channel_fn {
     template <typename SrcChannel, typename DstChannel>
     void operator()(const SrcChannel& src, DstChannel& dst) {
         using dst_value_t = typename channel_traits<DstChannel>::value_type;
-        dst = dst_value_t(src);
+        dst = cast<dst_value_t>(src, std::integral_constant<bool,
+            std::is_floating_point<SrcChannel>::value && std::numeric_limits<dst_value_t>::is_integer>());
+    }
+private:
+    template <typename DstValue, typename SrcChannel>
+    static DstValue cast(const SrcChannel& src, std::false_type) { return DstValue(src); }
+
+    // A sum of weighted integral channels accumulated in floating point: the weights add up
+    // to one only up to rounding, so truncating can end one below the smallest contributing
+    // value (a constant image of 255 was sampled as 254). Round to nearest instead.
+    template <typename DstValue, typename SrcChannel>
+    static DstValue cast(const SrcChannel& src, std::true_type)
+    {
+        return DstValue(src < 0 ? src - SrcChannel(0.5) : src + SrcChannel(0.5));
     }
 };
 
